@@ -11,6 +11,7 @@ CONSTANTS
     SnapshotOnPush = TRUE
     WithLazy = FALSE
     WithCurrent = FALSE
+    Panics = TRUE
     Emit = FALSE
 VIEW tview
 INVARIANTS SamplerOncePerTrace DecisionGoverns UnsampledSilent SampledConsistent NoTraceNoParent FrameCarries
